@@ -155,6 +155,8 @@ type rewriter struct {
 	writes   map[ast.Expr]bool
 	mapW     map[ast.Expr]bool
 	yieldFns bool
+	// function literals the rewriter itself put around conditionally evaluated operands
+	synthetic map[*ast.FuncLit]bool
 }
 
 func (r *rewriter) unsupported(pos token.Pos, what string) {
@@ -237,7 +239,29 @@ func (r *rewriter) hooksIn(e ast.Node) []ast.Stmt {
 	info := r.p.info
 	skip := map[ast.Node]bool{}
 	objDone := map[*ast.Ident]bool{}
-	ast.Inspect(e, func(n ast.Node) bool {
+	var visit func(n ast.Node) bool
+	visit = func(n ast.Node) bool {
+		if be, ok := n.(*ast.BinaryExpr); ok && (be.Op == token.LAND || be.Op == token.LOR) {
+			// the right operand is evaluated only if the left one lets it: its hooks must not run before the left
+			// operand has been looked at ("p != nil && p.f > 0": taking &p.f first would crash the instrumented
+			// program where the original is fine). They move into a function literal around the right operand.
+			ast.Inspect(be.X, visit)
+			if _, already := be.Y.(*ast.CallExpr); !already || !r.isSynthetic(be.Y) {
+				hy := r.hooksIn(be.Y)
+				if len(hy) > 0 {
+					if tv, ok := info.Types[be.Y]; ok && types.Identical(tv.Type.Underlying(), types.Typ[types.Bool]) && (types.Identical(tv.Type, types.Typ[types.Bool]) || types.Identical(tv.Type, types.Typ[types.UntypedBool])) {
+						fl := &ast.FuncLit{Type: &ast.FuncType{Params: &ast.FieldList{}, Results: &ast.FieldList{List: []*ast.Field{{Type: ast.NewIdent("bool")}}}},
+							Body: &ast.BlockStmt{List: append(hy, &ast.ReturnStmt{Results: []ast.Expr{be.Y}})}}
+						r.synthetic[fl] = true
+						stats["guarded_rhs"]++
+						be.Y = &ast.CallExpr{Fun: fl}
+					} else {
+						unhooked = append(unhooked, "right operand of "+be.Op.String()+" at "+posStr(be.Y.Pos()))
+					}
+				}
+			}
+			return false
+		}
 		if sel, ok := n.(*ast.SelectorExpr); ok {
 			// a.b.c with b a struct VALUE touches only &a.b.c: the inner selection is not a separate access
 			if inner, ok := sel.X.(*ast.SelectorExpr); ok && info.Selections[sel] != nil && info.Selections[sel].Kind() == types.FieldVal {
@@ -375,8 +399,18 @@ func (r *rewriter) hooksIn(e ast.Node) []ast.Stmt {
 			out = append(out, r.accStmts(x, v.Type(), x.Pos())...)
 		}
 		return true
-	})
+	}
+	ast.Inspect(e, visit)
 	return out
+}
+
+func (r *rewriter) isSynthetic(e ast.Expr) bool {
+	if c, ok := e.(*ast.CallExpr); ok {
+		if fl, ok := c.Fun.(*ast.FuncLit); ok {
+			return r.synthetic[fl]
+		}
+	}
+	return false
 }
 
 var atomicShims = func() map[string]bool {
@@ -636,6 +670,17 @@ func (r *rewriter) funcLits(n ast.Node) {
 	}
 	ast.Inspect(n, func(x ast.Node) bool {
 		if fl, ok := x.(*ast.FuncLit); ok {
+			if r.synthetic[fl] {
+				// its hooks are in place already; function literals inside the guarded operand still need theirs
+				for _, st := range fl.Body.List {
+					if rs, ok := st.(*ast.ReturnStmt); ok {
+						for _, e := range rs.Results {
+							r.funcLits(e)
+						}
+					}
+				}
+				return false
+			}
 			fl.Body.List = r.block(fl.Body.List)
 			return false
 		}
@@ -874,7 +919,7 @@ func main() {
 	}
 	for _, p := range []*pkgInfo{bt, in} {
 		for i, f := range p.files {
-			r := &rewriter{p: p, file: f, writes: map[ast.Expr]bool{}, mapW: map[ast.Expr]bool{}, yieldFns: p == in}
+			r := &rewriter{p: p, file: f, writes: map[ast.Expr]bool{}, mapW: map[ast.Expr]bool{}, yieldFns: p == in, synthetic: map[*ast.FuncLit]bool{}}
 			r.rewriteFile()
 			if !r.usedRT {
 				continue
